@@ -64,6 +64,13 @@ def handle (req : Json) : Json :=
     | none => Json.mkObj [("errors", (1 : Nat))]
     | some (cst, rest) =>
       Json.mkObj [("errors", (0 : Nat)), ("tree", cst.dump), ("leftover", (rest.length : Nat))]
+  | "model" =>
+    match parse text with
+    | none => Json.mkObj [("synerr", (1 : Nat))]
+    | some (cst, _) =>
+      match Visit.run cst with
+      | .ok st => Json.mkObj [("synerr", (0 : Nat)), ("model", Visit.dumpJ st)]
+      | .error c => Json.mkObj [("panic", c.kind), ("site", match c with | .nilDeref s => s | .assert s => s | .index s => s | .stack => "stack")]
   | "conform" | "search" =>
     match parse text with
     | none => Json.mkObj [("error", "syntax")]
